@@ -21,6 +21,17 @@ def main():
             sys.exit(mod.replay(a.replay) or 0)
         print(open(a.replay).read())
         sys.exit(0)
+    # a seeded change is being tried on /repo by scripts/seedtest.py: an ordinary check must not see that tree
+    lock = os.path.join(os.path.dirname(os.path.dirname(os.path.abspath(__file__))), ".build", "REPO_PATCHED.lock")
+    if not os.environ.get("VERIF_SEEDTEST"):
+        import time
+        t0 = time.time()
+        while os.path.exists(lock) and time.time() - t0 < 3600:
+            try:
+                os.kill(int(open(lock).read().strip() or 0), 0)
+            except Exception:
+                break
+            time.sleep(5)
     chk = vlib.Check(pid, a.tier, seed)
     try:
         mod.run(chk, a.tier, seed)
